@@ -50,6 +50,7 @@ const (
 	AVSendSnap
 	AVClosePhase
 	ASnapRewrite
+	AVProposeConf
 	numActKinds
 )
 
@@ -59,7 +60,7 @@ var actNames = [...]string{
 	"Propose", "ConfChange", "ReadIndex", "Transfer", "Campaign", "ForgetLeader",
 	"Unreachable", "SnapReport", "Compact", "Crash", "Restart", "Partition", "Heal",
 	"SnapFault", "Stop", "Checkpoint", "HealPhase",
-	"VElect", "VPropose", "VReplicate", "VCommit", "VCompact", "VSendApp", "VHeartbeat", "VSendSnap", "VClosePhase", "SnapRewrite",
+	"VElect", "VPropose", "VReplicate", "VCommit", "VCompact", "VSendApp", "VHeartbeat", "VSendSnap", "VClosePhase", "SnapRewrite", "VProposeConf",
 }
 
 func (k ActKind) String() string {
